@@ -757,3 +757,23 @@ v("c03-nunique-counts-null", "C03", PM, "        \"nunique\": lambda x: x.drop_n
 v("c03-count-native-count", "C03", PM,
   "        \"count\": lambda x: pl.when(x.is_null() | x.is_nan())\n        .then(_build_lit(0))\n        .otherwise(_build_lit(1))\n        .sum(),",
   "        \"count\": lambda x: x.count().cast(pl.Int64),")
+
+# ---------------------------------------------------------------- round-4 rules
+v("c12-limit-printed-by-truthiness", "C12", VR,
+  "        if self.limit is not None:\n            s = s + \", limit=\" + self.limit.__repr__()", "        if self.limit:\n            s = s + \", limit=\" + self.limit.__repr__()")
+v("c12-twin-limit-is-none-negated", "C12", VR,
+  "        if self.limit is not None:\n            s = s + \", limit=\" + self.limit.__repr__()", "        if not (self.limit is None):\n            s = s + \", limit=\" + self.limit.__repr__()", expect="silent")
+v("c14-annotation-block-comment", "C14", SM,
+  "                sql = sql + [\"-- \" + clean_anno]", "                sql = sql + [\"/* \" + clean_anno + \" */\"]")
+v("c18-table-step-conditional-clean", "C18", PB,
+  "        res = df.loc[:, columns_using]\n        res = self.clean_copy(res)\n        return res",
+  "        res = df.loc[:, columns_using]\n        if not isinstance(res.index, self.pd.RangeIndex):\n            res = self.clean_copy(res)\n        return res")
+v("c18-twin-table-step-reset-index", "C18", PB,
+  "        res = df.loc[:, columns_using]\n        res = self.clean_copy(res)\n        return res",
+  "        res = df.loc[:, columns_using].reset_index(drop=True, inplace=False)\n        return res", expect="silent")
+v("c15-db-auto-key-without-table-probe", "C15", "db_space.py",
+  "            while (key in self.description_map.keys()) or self.db_handle.db_model.table_exists(\n                self.db_handle.conn, key\n            ):\n                self.n_tmp = self.n_tmp + 1\n                key = f\"da_temp_{self.n_tmp}\"\n        assert isinstance(key, str)\n        assert isinstance(allow_overwrite, bool)\n        if not allow_overwrite:",
+  "            while key in self.description_map.keys():\n                self.n_tmp = self.n_tmp + 1\n                key = f\"da_temp_{self.n_tmp}\"\n        assert isinstance(key, str)\n        assert isinstance(allow_overwrite, bool)\n        if not allow_overwrite:")
+v("c16-pandas-fill-not-for-inner", "C16", PB,
+  "        for c in common_cols:\n            if c not in merged_key_cols:\n                is_null = res[c].isnull()\n                res.loc[is_null, c] = res.loc[is_null, c + \"_tmp_right_col\"]",
+  "        for c in common_cols:\n            if c not in merged_key_cols:\n                is_null = res[c].isnull()\n                if op.jointype != \"INNER\":\n                    res.loc[is_null, c] = res.loc[is_null, c + \"_tmp_right_col\"]")
